@@ -2,7 +2,7 @@
    Statements only; proofs in AmgProofs.v.  Model: Amg.v (build = do_init/step_down,
    rebuild_levels = level::rebuild, amgcl/amg.hpp:358-512). *)
 From Coq Require Import QArith Qcanon.
-From Amgcl Require Import Scalar QcInst Vec Crs Kernels MatOps Amg AmgExec AmgProofs.
+From Amgcl Require Import Scalar QcInst Vec Crs Kernels MatOps Amg AmgExec AmgProofs AmgExampleData.
 Local Close Scope Qc_scope.
 Local Close Scope Q_scope.
 Local Open Scope S_scope.
@@ -166,17 +166,6 @@ Qed.
 Print Assumptions C03_rebuild_is_fresh_build_Qc.
 
 (* non-vacuity: a concrete 3-level hierarchy over Qc (1D Laplacian, n = 4, pairwise aggregation) *)
-Definition exq (n : Z) : T QcS := qc n 1.
-Definition exM : crs QcS := mkCrs 4
-  [[(1, exq (-1)); (0, exq 2)]; [(0, exq (-1)); (1, exq 2); (2, exq (-1))];
-   [(3, exq (-1)); (2, exq 2); (1, exq (-1))]; [(2, exq (-1)); (3, exq 2)]]%nat.
-Definition exP1 : crs QcS := mkCrs 2 [[(0, exq 1)]; [(0, exq 1)]; [(1, exq 1)]; [(1, exq 1)]]%nat.
-Definition exR1 : crs QcS := mkCrs 4 [[(1, exq 1); (0, exq 1)]; [(2, exq 1); (3, exq 1)]]%nat.
-Definition exP2 : crs QcS := mkCrs 1 [[(0, exq 1)]; [(0, exq 1)]]%nat.
-Definition exR2 : crs QcS := mkCrs 2 [[(0, exq 1); (1, exq 1)]]%nat.
-Definition exTs := [Some (exP1, exR1); Some (exP2, exR2)].
-Definition exH := amg_init 1 true 10 (@galerkin QcS) exTs exM.
-
 Example C03_example_three_levels :
   map is_mid exH = [true; true; false] /\
   map (fun l => nrows (ld_A l)) exH = [4; 2; 1]%nat /\
